@@ -89,9 +89,11 @@ class StochasticAtomGraph:
                 for bd_rhs in element_rhs.bond_descriptors:
                     if bd_lhs.is_compatible(bd_rhs):
                         try:
-                            invert_text = _create_compatible_bond_text(element_rhs.left_terminal)
-                            invert_terminal = BondDescriptor(invert_text, 0, "", None)
-                            terminal_ok = invert_terminal.is_compatible(bd_rhs)
+                            # Generation hands over the bond descriptor whose text equals the left terminal.
+                            left_terminal = element_rhs.left_terminal
+                            terminal_ok = bd_lhs.generate_string(False) == left_terminal.generate_string(
+                                False
+                            )
                         except AttributeError:
                             if isinstance(element_rhs, SmilesToken):
                                 terminal_ok = True
